@@ -215,7 +215,7 @@ def run_kernel(drv, case) -> Outcome:
     name = basis_name_of(d, meas, True)
     out = Outcome(branch=f"{name}-n{n}", nontrivial=(eps > 0 or epsp > 0))
     cr = CoherentResults([res], n, name, np.array([0.0]), meas, dict(epsilon=eps, epsilon_prime=epsp))
-    w = np.asarray(res._weights(), dtype=float)
+    w = expected_weights(d, n, meas, True, probs)      # the convention itself, not res._weights()
     pd = np.real(cr._calc_pseudo_density(0).diag())
     # position of a detected bitstring in the pseudo-density: ground-rydberg stores |r> (=1) first
     real = np.zeros(2**n)
@@ -371,7 +371,7 @@ def run_evaltimes(drv, case) -> Outcome:
     tol = 0.5 / T
     rel = final / T * 1e3          # what QutipResult.evaluation_time will hold
     for r in requested:
-        hits = [t for t in rel if cfg.is_time_in_evaluation_times(float(t), [r], tol=tol)]
+        hits = [t for t in rel if 0.0 <= float(t) <= 1.0 and abs(float(t) - r) <= tol]
         out.evaluations += 1
         # two requested times (or a requested time and an end point, always present) closer than the
         # tolerance are legitimately matched by both
